@@ -336,7 +336,17 @@ class Ex:
             return z3.BoolVal(len(v.items) > 0)
         if isinstance(v, VPy):
             return z3.BoolVal(bool(v.obj))
-        if isinstance(v, (VObj, VFunc, VClass, VExc)):
+        if isinstance(v, VObj):
+            # user classes: __bool__, then __len__, decide truthiness
+            mod = self.world.module_of_class(v.cls)
+            if mod is not None:
+                for special in ("__bool__", "__len__"):
+                    hit = mod.mro_lookup(v.cls, special)
+                    if hit is not None and hit[0] == "method":
+                        f = VFunc("user", "%s.%s" % (hit[2].name, special), node=hit[1], cls=hit[2].name, module=mod)
+                        return self.truth(self.call(f.bind(v), [], {}))
+            return z3.BoolVal(True)
+        if isinstance(v, (VFunc, VClass, VExc)):
             return z3.BoolVal(True)
         raise Unsupported("truth of %r" % (v,))
 
